@@ -1,8 +1,446 @@
-/- PyodaModel.Zone — placeholder until the area is modelled. -/
+/-
+  PyodaModel.Zone — the time-zone engine on a single integer timeline (nanoseconds since the Unix epoch).
+
+  Instants and local instants are `Int` nanoseconds; the code's (days, nano-of-day) pairs compare
+  lexicographically, i.e. exactly like `days * NPD + nod`, and the two sentinel values
+  `Instant._before_min_value()` / `_after_max_value()` (days = ∓2^30, nod = 0) become `BMIN` / `AMAX`.
+
+  Transcribed from pyoda_time/_date_time_zone.py (map_local, at_start_of_day, get_zone_intervals),
+  time_zones/_zone_interval.py, _zone_year_offset.py, _zone_recurrence.py,
+  _standard_daylight_alternating_map.py, _precalculated_date_time_zone.py, _fixed_date_time_zone.py,
+  _zone_local_mapping.py, _resolvers.py.
+-/
 import PyodaModel.Prelude
 
 namespace Pyoda.Zone
 
-def handle (_toks : List String) : Option String := none
+def MIN_DAYS : Int := -4371222
+def MAX_DAYS : Int := 2932896
+def MINI : Int := MIN_DAYS * NPD                 -- Instant.min_value
+def MAXI : Int := (MAX_DAYS + 1) * NPD - 1       -- Instant.max_value
+def BMIN : Int := -1073741824 * NPD              -- Instant._before_min_value()
+def AMAX : Int := 1073741823 * NPD               -- Instant._after_max_value()
+
+def dayOf (t : Int) : Int := t / NPD
+def isValid (t : Int) : Bool := decide (MIN_DAYS ≤ dayOf t) && decide (dayOf t ≤ MAX_DAYS)
+
+/-- `Instant._safe_plus(offset)` / result as local-instant nanoseconds (offset in nanoseconds). -/
+def safePlus (t off : Int) : Int :=
+  let d := dayOf t
+  if MIN_DAYS < d ∧ d < MAX_DAYS then t + off
+  else if d < MIN_DAYS then BMIN
+  else if d > MAX_DAYS then AMAX
+  else
+    let r := t + off
+    if dayOf r < MIN_DAYS then BMIN else if dayOf r > MAX_DAYS then AMAX else r
+
+/-- `_LocalInstant._safe_minus(offset)` -/
+def safeMinus (l off : Int) : Int :=
+  let d := dayOf l
+  if MIN_DAYS < d ∧ d < MAX_DAYS then l - off
+  else if d < MIN_DAYS then BMIN
+  else if d > MAX_DAYS then AMAX
+  else
+    let r := l - off
+    if dayOf r < MIN_DAYS then BMIN else if dayOf r > MAX_DAYS then AMAX else r
+
+/-- `Instant._from_untrusted_duration` -/
+def untrusted (t : Int) : R Int :=
+  if dayOf t < MIN_DAYS ∨ dayOf t > MAX_DAYS then .error .overflowError else .ok t
+
+/-- `Offset + Offset` (seconds), range-checked -/
+def offAdd (a b : Int) : R Int :=
+  if a + b < -64800 ∨ a + b > 64800 then .error .valueError else .ok (a + b)
+
+structure ZI where
+  s : Int
+  e : Int
+  name : String
+  wall : Int      -- seconds
+  savings : Int   -- seconds
+  deriving DecidableEq, Repr, Inhabited
+
+namespace ZI
+def localStart (z : ZI) : Int := safePlus z.s (z.wall * NPS)
+def localEnd (z : ZI) : Int := safePlus z.e (z.wall * NPS)
+def contains (z : ZI) (t : Int) : Bool := decide (z.s ≤ t) && decide (t < z.e)
+def containsLocal (z : ZI) (l : Int) : Bool := decide (z.localStart ≤ l) && decide (l < z.localEnd)
+def hasStart (z : ZI) : Bool := isValid z.s
+def hasEnd (z : ZI) : Bool := isValid z.e
+/-- `ZoneInterval(...)`: rejects `start >= end` -/
+def mk' (name : String) (s e wall savings : Int) : R ZI :=
+  if s ≥ e then .error .valueError else .ok ⟨s, e, name, wall, savings⟩
+def withStart (z : ZI) (s : Int) : R ZI := mk' z.name s z.e z.wall z.savings
+end ZI
+
+/-! ## ISO calendar arithmetic used by the yearly rules -/
+
+def isLeap (y : Int) : Bool := (y % 4 == 0) && (y % 100 != 0 || y % 400 == 0)
+
+def daysInMonth (y m : Int) : Int :=
+  if m = 2 then (if isLeap y then 29 else 28)
+  else if m = 4 ∨ m = 6 ∨ m = 9 ∨ m = 11 then 30 else 31
+
+/-- days since 1970-01-01 of the proleptic Gregorian date (y, m, d) -/
+def daysFromCivil (y m d : Int) : Int :=
+  let y' := if m ≤ 2 then y - 1 else y
+  let era := y' / 400
+  let yoe := y' - era * 400
+  let mp := (m + 9) % 12
+  let doy := (153 * mp + 2) / 5 + d - 1
+  let doe := yoe * 365 + yoe / 4 - yoe / 100 + doy
+  era * 146097 + doe - 719468
+
+/-- Gregorian year containing day number `z` -/
+def yearOfDays (z0 : Int) : Int :=
+  let z := z0 + 719468
+  let era := z / 146097
+  let doe := z - era * 146097
+  let yoe := (doe - doe / 1460 + doe / 36524 - doe / 146096) / 365
+  let y := yoe + era * 400
+  let doy := doe - (365 * yoe + yoe / 4 - yoe / 100)
+  let mp := (5 * doy + 2) / 153
+  let m := if mp < 10 then mp + 3 else mp - 9
+  if m ≤ 2 then y + 1 else y
+
+/-- ISO day of week, Monday = 1 … Sunday = 7 -/
+def dayOfWeek (days : Int) : Int := (days + 3) % 7 + 1
+
+def MIN_GREG_YEAR : Int := -9998
+def MAX_GREG_YEAR : Int := 9999
+def minDaysIso : Int := daysFromCivil (-9998) 1 1
+def maxDaysIso : Int := daysFromCivil 9999 12 31
+
+/-! ## yearly rules -/
+
+structure YearOffset where
+  mode : Int          -- 0 UTC, 1 wall, 2 standard
+  month : Int
+  dom : Int           -- day of month, negative = from the end
+  dow : Int           -- 0 = none
+  advance : Bool
+  tod : Int           -- nanosecond of day
+  addDay : Bool
+  deriving DecidableEq, Repr, Inhabited
+
+/-- `_ZoneYearOffset._get_occurrence_for_year` → local instant in nanoseconds (or the after-max sentinel) -/
+def YearOffset.occurrence (yo : YearOffset) (year : Int) : R Int := do
+  if year < MIN_GREG_YEAR ∨ year > MAX_GREG_YEAR then .error .valueError else
+  let actual0 := if yo.dom > 0 then yo.dom else daysInMonth year yo.month + yo.dom + 1
+  let actual := if yo.month = 2 ∧ yo.dom = 29 ∧ !isLeap year then 28 else actual0
+  if actual < 1 ∨ actual > daysInMonth year yo.month then .error .valueError else
+  let d0 := daysFromCivil year yo.month actual
+  let d1 ←
+    if yo.dow ≠ 0 then
+      let cur := dayOfWeek d0
+      if cur ≠ yo.dow then
+        let diff0 := yo.dow - cur
+        let diff := if diff0 > 0 then (if !yo.advance then diff0 - 7 else diff0)
+                    else (if yo.advance then diff0 + 7 else diff0)
+        let d := d0 + diff
+        if d < minDaysIso ∨ d > maxDaysIso then .error .overflowError else pure d
+      else pure d0
+    else pure d0
+  if yo.addDay then
+    if d1 = maxDaysIso ∧ year = 9999 then .ok AMAX
+    else
+      let d := d1 + 1
+      if d > maxDaysIso then .error .overflowError else .ok (d * NPD + yo.tod)
+  else .ok (d1 * NPD + yo.tod)
+
+def YearOffset.ruleOffset (yo : YearOffset) (std savings : Int) : R Int :=
+  if yo.mode = 1 then offAdd std savings
+  else if yo.mode = 2 then .ok std
+  else .ok 0
+
+structure Recurrence where
+  name : String
+  savings : Int
+  yo : YearOffset
+  fromYear : Int
+  toYear : Int
+  deriving DecidableEq, Repr, Inhabited
+
+def INT_MIN : Int := -2147483648
+def INT_MAX : Int := 2147483647
+
+namespace Recurrence
+
+def minLocal (r : Recurrence) : R Int :=
+  if r.fromYear = INT_MIN then .ok BMIN else r.yo.occurrence r.fromYear
+def maxLocal (r : Recurrence) : R Int :=
+  if r.toYear = INT_MAX then .ok AMAX else r.yo.occurrence r.toYear
+
+/-- `_ZoneRecurrence._next` : instant of the next transition strictly after `t`, `none` if there is none -/
+def next (r : Recurrence) (t std prevSavings : Int) : R (Option Int) := do
+  let ro ← r.yo.ruleOffset std prevSavings
+  let _ ← offAdd std r.savings
+  let safeLocal := safePlus t (ro * NPS)
+  let mn ← r.minLocal
+  let mx ← r.maxLocal
+  let target ←
+    if safeLocal < mn then pure (some r.fromYear)
+    else if safeLocal ≥ mx then pure none
+    else if safeLocal = BMIN then pure (some MIN_GREG_YEAR)
+    else pure (some (yearOfDays (dayOf safeLocal)))
+  match target with
+  | none => if mx = AMAX then .ok (some AMAX) else .ok none
+  | some y =>
+    let tr ← r.yo.occurrence y
+    let st := safeMinus tr (ro * NPS)
+    if st > t then .ok (some st)
+    else
+      let y2 := y + 1
+      if y2 > MAX_GREG_YEAR then .ok (some AMAX)
+      else
+        let tr2 ← r.yo.occurrence y2
+        .ok (some (safeMinus tr2 (ro * NPS)))
+
+/-- `_ZoneRecurrence._previous_or_same` -/
+def previousOrSame (r : Recurrence) (t std prevSavings : Int) : R (Option Int) := do
+  let ro ← r.yo.ruleOffset std prevSavings
+  let _ ← offAdd std r.savings
+  let safeLocal := safePlus t (ro * NPS)
+  let mn ← r.minLocal
+  let mx ← r.maxLocal
+  if safeLocal > mx then go r t ro r.toYear
+  else if safeLocal < mn then .ok none
+  else if !(isValid safeLocal) then
+    if safeLocal = BMIN then .ok (some BMIN) else go r t ro MAX_GREG_YEAR
+  else go r t ro (yearOfDays (dayOf safeLocal))
+where
+  go (r : Recurrence) (t ro y : Int) : R (Option Int) := do
+    let tr ← r.yo.occurrence y
+    let st := safeMinus tr (ro * NPS)
+    if st ≤ t then .ok (some st)
+    else
+      let y2 := y - 1
+      if y2 < MIN_GREG_YEAR then .ok (some BMIN)
+      else
+        let tr2 ← r.yo.occurrence y2
+        .ok (some (safeMinus tr2 (ro * NPS)))
+
+def nextOrFail (r : Recurrence) (t std ps : Int) : R Int := do
+  match ← r.next t std ps with
+  | some x => .ok x
+  | none => .error .runtimeError
+
+def prevOrFail (r : Recurrence) (t std ps : Int) : R Int := do
+  match ← r.previousOrSame t std ps with
+  | some x => .ok x
+  | none => .error .runtimeError
+
+end Recurrence
+
+/-- `_StandardDaylightAlternatingMap` -/
+structure AltMap where
+  std : Int              -- standard offset, seconds
+  stdRec : Recurrence
+  dstRec : Recurrence
+  deriving DecidableEq, Repr, Inhabited
+
+namespace AltMap
+
+/-- returns (instant of next transition, `true` if the *current* recurrence is the daylight one) -/
+def nextTransition (m : AltMap) (t : Int) : R (Int × Bool) := do
+  let d ← m.dstRec.nextOrFail t m.std 0
+  let s ← m.stdRec.nextOrFail t m.std m.dstRec.savings
+  if s < d then .ok (s, true)
+  else if s > d then .ok (d, false)
+  else if isValid s then .error .runtimeError
+  else
+    let pd ← m.dstRec.prevOrFail t m.std 0
+    let ps ← m.stdRec.prevOrFail t m.std m.dstRec.savings
+    if pd > ps then .ok (s, true) else .ok (d, false)
+
+def get (m : AltMap) (t : Int) : R ZI := do
+  let (nx, curIsDst) ← m.nextTransition t
+  let rec_ := if curIsDst then m.dstRec else m.stdRec
+  let prevSavings := if curIsDst then 0 else m.dstRec.savings
+  let pv ← rec_.prevOrFail t m.std prevSavings
+  let wall ← offAdd m.std rec_.savings
+  ZI.mk' rec_.name pv nx wall rec_.savings
+
+def minOffset (m : AltMap) : Int := min m.std (m.std + m.dstRec.savings)
+def maxOffset (m : AltMap) : Int := max m.std (m.std + m.dstRec.savings)
+
+end AltMap
+
+/-- `_PrecalculatedDateTimeZone` -/
+structure Precalc where
+  periods : Array ZI
+  tail : Option AltMap
+  deriving Repr, Inhabited
+
+namespace Precalc
+
+def tailStart (p : Precalc) : Int := match p.periods.back? with | some z => z.e | none => AMAX
+
+/-- the binary search over the periods, with explicit fuel -/
+def search (ps : Array ZI) (t : Int) : Nat → Nat → Nat → R ZI
+  | 0, _, _ => .error .runtimeError
+  | fuel + 1, lower, upper =>
+    if lower < upper then
+      let cur := (lower + upper) / 2
+      match ps[cur]? with
+      | none => .error .indexError
+      | some c =>
+        if c.s > t then search ps t fuel lower cur
+        else if c.e ≤ t then search ps t fuel (cur + 1) upper
+        else .ok c
+    else .error .runtimeError
+
+def get (p : Precalc) (t : Int) : R ZI :=
+  match p.tail with
+  | some tz =>
+    if t ≥ p.tailStart then do
+      let iv ← tz.get t
+      if iv.s < p.tailStart then do
+        let first ← tz.get p.tailStart
+        first.withStart p.tailStart
+      else .ok iv
+    else search p.periods t (p.periods.size + 1) 0 p.periods.size
+  | none => search p.periods t (p.periods.size + 1) 0 p.periods.size
+
+/-- `_validate_periods` -/
+def validate (p : Precalc) : Bool :=
+  p.periods.size > 0 &&
+  (match p.periods[0]? with | some z => !z.hasStart | none => false) &&
+  (List.range (p.periods.size - 1)).all (fun i =>
+    match p.periods[i]?, p.periods[i+1]? with
+    | some a, some b => a.hasEnd && b.hasStart && a.e == b.s
+    | _, _ => false) &&
+  (p.tail.isSome || p.tailStart == AMAX)
+
+def minOffset (p : Precalc) : Int :=
+  let m := p.periods.foldl (fun acc z => min acc z.wall) (match p.periods[0]? with | some z => z.wall | none => 0)
+  match p.tail with | some t => min m (min t.minOffset t.maxOffset) | none => m
+def maxOffset (p : Precalc) : Int :=
+  let m := p.periods.foldl (fun acc z => max acc z.wall) (match p.periods[0]? with | some z => z.wall | none => 0)
+  match p.tail with | some t => max m (max t.minOffset t.maxOffset) | none => m
+
+end Precalc
+
+inductive ZoneDef where
+  | fixed (z : ZI)
+  | precalc (p : Precalc)
+  deriving Repr, Inhabited
+
+def ZoneDef.get : ZoneDef → Int → R ZI
+  | .fixed z, _ => .ok z
+  | .precalc p, t => p.get t
+
+/-! ## local → instant mapping -/
+
+structure Mapping where
+  count : Nat
+  early : ZI
+  late : ZI
+  deriving Repr, Inhabited
+
+section MapLocal
+variable (get : Int → R ZI)
+
+def earlierMatching (iv : ZI) (l : Int) : R (Option ZI) :=
+  if dayOf l ≤ dayOf iv.s + 1 then do
+    let t ← untrusted (iv.s - 1)
+    let c ← get t
+    if c.containsLocal l then .ok (some c) else .ok none
+  else .ok none
+
+def laterMatching (iv : ZI) (l : Int) : R (Option ZI) :=
+  if dayOf l ≥ dayOf iv.e - 1 then do
+    let c ← get iv.e
+    if c.containsLocal l then .ok (some c) else .ok none
+  else .ok none
+
+def intervalBeforeGap (l : Int) : R ZI := do
+  let g ← get l
+  let t ← untrusted (l - g.wall * NPS)
+  if t < g.s then
+    if !g.hasStart then .error .runtimeError else do
+      let u ← untrusted (g.s - 1)
+      get u
+  else .ok g
+
+def intervalAfterGap (l : Int) : R ZI := do
+  let g ← get l
+  let t ← untrusted (l - g.wall * NPS)
+  if t < g.s then .ok g
+  else
+    if !g.hasEnd then .error .runtimeError else get g.e
+
+/-- `DateTimeZone.map_local` on a valid local instant `l` -/
+def mapLocal (l : Int) : R Mapping := do
+  let iv ← get l
+  if iv.containsLocal l then
+    match ← earlierMatching get iv l with
+    | some e => .ok ⟨2, e, iv⟩
+    | none =>
+      match ← laterMatching get iv l with
+      | some la => .ok ⟨2, iv, la⟩
+      | none => .ok ⟨1, iv, iv⟩
+  else
+    match ← earlierMatching get iv l with
+    | some e => .ok ⟨1, e, e⟩
+    | none =>
+      match ← laterMatching get iv l with
+      | some la => .ok ⟨1, la, la⟩
+      | none => do
+        let b ← intervalBeforeGap get l
+        let a ← intervalAfterGap get l
+        .ok ⟨0, b, a⟩
+
+/-- instant of `local.with_offset(wall)` as used by first()/last(): `l - wall`, must be a valid instant
+    for the resulting ZonedDateTime to be usable (`to_instant` raises otherwise). -/
+def buildInstant (l : Int) (z : ZI) : R Int := untrusted (l - z.wall * NPS)
+
+/-- results of the mapping as instants, earlier first -/
+def Mapping.instants (m : Mapping) (l : Int) : R (List Int) :=
+  match m.count with
+  | 0 => .ok []
+  | 1 => do let a ← buildInstant l m.early; .ok [a]
+  | _ => do let a ← buildInstant l m.early; let b ← buildInstant l m.late; .ok [a, b]
+
+/-- strict resolver -/
+def atStrictly (l : Int) : R Int := do
+  let m ← mapLocal get l
+  match m.count with
+  | 0 => .error .skippedTime
+  | 1 => buildInstant l m.early
+  | _ => .error .ambiguousTime
+
+/-- lenient resolver: earlier of two; a skipped time is shifted forward by the length of the gap -/
+def atLeniently (l : Int) : R Int := do
+  let m ← mapLocal get l
+  match m.count with
+  | 0 =>
+    -- OffsetDateTime(local, before.wall).with_offset(after.wall): same instant l - before.wall
+    untrusted (l - m.early.wall * NPS)
+  | _ => buildInstant l m.early
+
+/-- `at_start_of_day` for the local midnight `l` (a multiple of one day) of a date -/
+def atStartOfDay (l : Int) : R Int := do
+  let m ← mapLocal get l
+  match m.count with
+  | 0 =>
+    let iv := m.late
+    if !iv.hasStart then .error .runtimeError else
+    -- OffsetDateTime(instant=iv.start, offset=iv.wall): its local date must be the requested date
+    let loc := iv.s + iv.wall * NPS
+    if dayOf loc ≠ dayOf l then .error .skippedTime else .ok iv.s
+  | _ => buildInstant l m.early
+
+end MapLocal
+
+/-! ## walking a zone (get_zone_intervals) -/
+
+def walk (get : Int → R ZI) : Nat → Int → Int → List ZI → R (List ZI)
+  | 0, _, _, acc => .ok acc.reverse
+  | fuel + 1, cur, stop, acc =>
+    if cur < stop then do
+      let z ← get cur
+      walk get fuel z.e stop (z :: acc)
+    else .ok acc.reverse
 
 end Pyoda.Zone
